@@ -1826,3 +1826,31 @@ def field_replacement_sites(W, adt, field):
                 if pj and is_field(pj[-1]):
                     out.append((fn, bl.idx, "%s.%s is assigned the result of a call in %s" % (adt.split("::")[-1], field, fn.path.split("::", 1)[-1])))
     return out
+
+
+def flat_const_range(W, t):
+    """(base, lo, hi|None) of nested constant slicings `b[a..c][d..]`, `b[..c][d..e]`, `b.split_at(k).0[d..]`: the same bytes of b."""
+    t = values.strip_payload(t)
+    if isinstance(t, tuple) and t and t[0] in ("field", "vfield") and isinstance(t[1], tuple) and is_call(values.strip_payload(t[1])) and \
+            callee_name(values.strip_payload(t[1])[1]) in ("split_at", "split_at_checked") and len(values.strip_payload(t[1])[2]) == 2:
+        c = values.strip_payload(t[1])
+        k = c[2][1]
+        which = str(t[-1])
+        if isinstance(k, tuple) and k[0] == "int" and which in ("0", "1"):
+            base, lo, hi = flat_const_range(W, W.expand(c[2][0]))
+            return (base, lo, lo + k[1]) if which == "0" else (base, lo + k[1], hi)
+    if not (isinstance(t, tuple) and t and t[0] == "index" and isinstance(t[2], tuple) and t[2][0] == "agg"):
+        return (t, 0, None)
+    base, lo, hi = flat_const_range(W, W.expand(t[1]))
+    lab, ops = str(t[2][1]), t[2][2]
+    if not all(isinstance(o, tuple) and o[0] == "int" for o in ops):
+        return (t, 0, None)
+    if lab.endswith("Range::Range"):
+        a, c = ops[0][1], ops[1][1]
+    elif lab.endswith("RangeFrom::RangeFrom"):
+        a, c = ops[0][1], None
+    elif lab.endswith("RangeTo::RangeTo"):
+        a, c = 0, ops[0][1]
+    else:
+        return (t, 0, None)
+    return (base, lo + a, (lo + c) if c is not None else hi)
